@@ -22,7 +22,7 @@ RULE = ('for every ordered pair (A, B) of key subsets, every pair of operand for
         'distinct_nontrivial = calls with both operands non-empty containers')
 TRUSTED = ['CPython 3.12', 'persistent 6.8', 'vt harness']
 ASSUMPTIONS = ['key universes of 3 keys (all weight pairs) and 4 keys (two weight pairs); value and '
-               'weight alphabets chosen so that float products and sums are exact in single precision']
+               'weight alphabets (values include 0, weights include 0, 1, a fraction / a negative, a big one) chosen so that float products and sums are exact in single precision']
 
 FORMS = ['Set', 'TreeSet', 'TreeSet/thin', 'Bucket', 'BTree', 'BTree/thin', 'None']
 
@@ -34,7 +34,7 @@ def bounds(tier):
 
 def required_guards(tier):
     return ['union', 'intersection', 'both_sets', 'set_and_mapping', 'both_mappings', 'none_operand',
-            'default_weights', 'big_weight', 'fractional_weight']
+            'default_weights', 'big_weight', 'fractional_weight', 'zero_value']
 
 
 def jobs(tier):
@@ -63,12 +63,12 @@ def jobs(tier):
 def alphabets(fam):
     vt = fam[1]
     if vt == 'F':
-        vals = [0.5, 1.5, -2.0, 4.0]
+        vals = [0.5, 0.0, -2.0, 4.0]      # a stored 0 must stay 0 whatever its weight (seed C12H)
         ws = [0.0, 1.0, 0.5, -1.75, 3.0, 1024.0]
         rng = None
     else:
         lo, hi = F.INT_RANGE[vt]
-        vals = [1, 2, 3, 7]
+        vals = [1, 0, 3, 7]
         ws = [0, 1, 2, 3]
         if lo < 0:
             ws.append(-1)
@@ -216,6 +216,8 @@ def job(fam, impl, n, weights, variant='centred'):
                             continue
                         if A and B:
                             distinct += 1
+                        if (ismap1 and any(m1[k] == 0 for k in A)) or (ismap2 and any(m2[k] == 0 for k in B)):
+                            guards['zero_value'] += 1
                         guards['both_sets' if (not ismap1 and not ismap2) else
                                ('both_mappings' if (ismap1 and ismap2) else 'set_and_mapping')] += 1
                         tn = type(got_c).__name__
